@@ -494,12 +494,23 @@ class Interp:
         elif kind == 'with':
             self._m_close()
 
+            class Boom(Exception):
+                pass
+            raising = len(op) > 1 and op[1]
+
             def body():
                 with port as p:
                     if p is not port:
                         raise AssertionError('__enter__ returned another object')
+                    if raising:
+                        raise Boom('raised by the body of the with block')
+                return 'left normally'
             res, sleeps = self._call(body)
-            if res[0] != 'ok':
+            if raising:
+                # the port is closed on the way out and the caller's exception is the caller's: it propagates
+                if res[0] != 'exc' or not isinstance(res[1], Boom):
+                    self._fail('with-swallows', f'an exception raised inside "with port:" did not propagate: {res}')
+            elif res[0] != 'ok':
                 self._fail('with-raises', f'{res}')
         else:
             raise KeyError(kind)
@@ -722,6 +733,10 @@ def make_machine(kind, autoreset):
         @rule()
         def close(self):
             self.ops.append(['close'])
+
+        @rule()
+        def with_block_raising(self):
+            self.ops.append(['with', True])
 
         @rule()
         def with_block(self):
